@@ -22,6 +22,7 @@ import (
 	"net/http/httptest"
 	"runtime"
 	"strconv"
+	"strings"
 	"sync"
 	"sync/atomic"
 	"time"
@@ -36,6 +37,11 @@ func main() { hlib.Main("connlimit", &connlimitComp{}) }
 type connlimitComp struct{}
 
 const burstRounds = 12
+
+// source tokens are long and share their first 70 bytes (API keys, bearer tokens): distinct tokens are distinct sources
+var srcPrefix = strings.Repeat("tenant-", 10)
+
+func srcName(tok int64) string { return srcPrefix + strconv.FormatInt(tok, 10) }
 
 type clReq struct {
 	tok, amount int64
@@ -55,7 +61,7 @@ func newCLRunner(max int64) (*clRunner, error) {
 	r := &clRunner{seen: map[int64]int64{}, entered: make(chan int64, 1)}
 	r.handler = func() http.Handler {
 		return http.HandlerFunc(func(w http.ResponseWriter, req *http.Request) {
-			tok, _ := strconv.ParseInt(req.Header.Get("X-Source"), 10, 64)
+			tok, _ := strconv.ParseInt(strings.TrimPrefix(req.Header.Get("X-Source"), srcPrefix), 10, 64)
 			amount, _ := strconv.ParseInt(req.Header.Get("X-Amount"), 10, 64)
 			r.mu.Lock()
 			r.seen[tok] += amount
@@ -73,7 +79,7 @@ func newCLRunner(max int64) (*clRunner, error) {
 				if tok%2 == 0 {
 					req.Header.Del("X-Source")
 				} else {
-					req.Header.Set("X-Source", strconv.FormatInt(tok+1, 10))
+					req.Header.Set("X-Source", srcName(tok+1))
 				}
 				req.Header.Set("X-Amount", "7")
 			}
@@ -106,7 +112,7 @@ func (r *clRunner) arrive(tok, amount int64) (status int64, seen int64, rq *clRe
 	rq = &clReq{tok: tok, amount: amount, release: make(chan int, 1), done: make(chan int, 1)}
 	req := httptest.NewRequest(http.MethodGet, "http://example.com/", nil)
 	if tok >= 0 {
-		req.Header.Set("X-Source", strconv.FormatInt(tok, 10))
+		req.Header.Set("X-Source", srcName(tok))
 	}
 	req.Header.Set("X-Amount", strconv.FormatInt(amount, 10))
 	req = req.WithContext(contextWith(req, rq.release))
@@ -147,7 +153,7 @@ func (r *clRunner) burst(tok int64, k int) (admitted int64, maxSeen int64, probl
 		rq := &clReq{tok: tok, amount: 1, release: make(chan int, 1), done: make(chan int, 1)}
 		rqs = append(rqs, rq)
 		req := httptest.NewRequest(http.MethodGet, "http://example.com/", nil)
-		req.Header.Set("X-Source", strconv.FormatInt(tok, 10))
+		req.Header.Set("X-Source", srcName(tok))
 		req.Header.Set("X-Amount", "1")
 		req = req.WithContext(contextWith(req, rq.release))
 		rec := httptest.NewRecorder()
